@@ -626,6 +626,170 @@ func runCase(id int, src string, stats map[string]int) {
 	hx.Emit(c)
 }
 
+// ---------------------------------------------------------------- level S+: one simple command with assignments and redirections
+
+func (e *exporter) xcall(f *syntax.File) string {
+	if len(f.Stmts) != 1 || len(f.Last) > 0 {
+		e.bad("not one statement")
+		return ""
+	}
+	st := f.Stmts[0]
+	ce, isCall := st.Cmd.(*syntax.CallExpr)
+	if !isCall || st.Negated || st.Background || st.Coprocess || st.Disown || len(st.Comments) > 0 {
+		e.bad("not a plain simple command")
+		return ""
+	}
+	var sb strings.Builder
+	sb.WriteString("(mkX (")
+	var lastEnd syntax.Pos
+	for _, a := range ce.Assigns {
+		if a.Name == nil || a.Append || a.Naked || a.Index != nil || a.Array != nil || !syntax.ValidName(a.Name.Value) {
+			e.bad("assign kind")
+			return ""
+		}
+		val := "nil"
+		if a.Value != nil {
+			val = e.word(a.Value)
+		}
+		fmt.Fprintf(&sb, "mkA %s %s :: ", coqBytes(a.Name.Value), val)
+		lastEnd = a.End()
+	}
+	sb.WriteString("nil) (")
+	for _, w := range ce.Args {
+		sb.WriteString(e.word(w))
+		sb.WriteString(" :: ")
+		lastEnd = w.End()
+	}
+	sb.WriteString("nil) (")
+	for _, r := range st.Redirs {
+		op := ""
+		switch r.Op {
+		case syntax.RdrOut:
+			op = "RdrOut"
+		case syntax.AppOut:
+			op = "AppOut"
+		case syntax.RdrIn:
+			op = "RdrIn"
+		case syntax.DplOut:
+			op = "DplOut"
+		default:
+			e.bad("redirect op")
+			return ""
+		}
+		n := ""
+		if r.N != nil {
+			n = r.N.Value
+			for i := 0; i < len(n); i++ {
+				if n[i] < '0' || n[i] > '9' {
+					e.bad("redirect fd")
+				}
+			}
+		}
+		if r.Hdoc != nil || r.Word == nil || !r.Pos().After(lastEnd) && r.Pos() != lastEnd {
+			e.bad("redirect position")
+			return ""
+		}
+		fmt.Fprintf(&sb, "mkR %s %s %s :: ", coqBytes(n), op, e.word(r.Word))
+	}
+	sb.WriteString("nil))")
+	if st.Pos().Line() != st.End().Line() {
+		e.bad("multi-line simple command")
+	}
+	return sb.String()
+}
+
+var xNames = []string{"x", "y_1", "A", "_v"}
+var xVals = []string{"", "1", "'a b'", "\"$y\"", "$z", "a=b", "é", "\\;", "${q}w", "-n"}
+var xTargets = []string{"f", "/dev/null", "'a b'", "\"$x\"", "$f", "log.txt", "a=b", "2"}
+var xFds = []string{"", "", "2", "1", "10"}
+
+func (g *gen) xcmd() string {
+	r := g.r
+	var parts []string
+	na, nw, nr := r.IntN(3), r.IntN(4), r.IntN(4)
+	if r.IntN(3) == 0 {
+		na = 0
+	}
+	if nw == 0 && na == 0 {
+		nw = 1
+	}
+	for i := 0; i < na; i++ {
+		parts = append(parts, hx.Pick(r, xNames)+"="+hx.Pick(r, xVals))
+	}
+	for i := 0; i < nw; i++ {
+		parts = append(parts, g.wordText(i == 0))
+	}
+	for i := 0; i < nr; i++ {
+		op := hx.Pick(r, []string{">", ">>", "<", ">&"})
+		t := hx.Pick(r, xTargets)
+		if op == ">&" {
+			t = hx.Pick(r, []string{"1", "2", "-"})
+		}
+		sp := ""
+		if r.IntN(3) == 0 {
+			sp = " "
+		}
+		parts = append(parts, hx.Pick(r, xFds)+op+sp+t)
+	}
+	return strings.Join(parts, g.sp())
+}
+
+var xPinned = []string{"a >f", "x=1", "x=", "x=1 y=2 a b", "a 2>&1", "a >>f <g 2>/dev/null", "x='a b' >f", "a b x=1", "x=1 >f", "a 10>f", "a 2 >f", "a >&-", "x=a=b c", "a > f"}
+
+func runX(id int, src string, stats map[string]int) {
+	f, err := hxfmt.Parse(src, syntax.LangBash, false)
+	if err != nil {
+		stats["src_parse_error"]++
+		return
+	}
+	e := &exporter{ok: true}
+	tree := e.xcall(f)
+	if !e.ok {
+		stats["xoutside:"+e.why]++
+		return
+	}
+	sr := id%2 == 1
+	single := (id/2)%2 == 1
+	name := "default"
+	var po []syntax.PrinterOption
+	if single {
+		name = "single"
+		po = append(po, syntax.SingleLine(true))
+	}
+	if sr {
+		name += ",sr"
+		po = append(po, syntax.SpaceRedirects(true))
+	}
+	c := Case{ID: id, Src: hx.Hex(src), Tree: tree, Opts: name, Mode: "xcall", Bnl: sr}
+	pr := syntax.NewPrinter(po...)
+	out, err := hxfmt.Print(pr, f)
+	if err != nil {
+		c.Err = "print: " + err.Error()
+		hx.Emit(c)
+		return
+	}
+	c.Out = hx.Hex(out)
+	f2, err := hxfmt.Parse(out, syntax.LangBash, false)
+	if err != nil {
+		c.Err = "reparse: " + err.Error()
+		hx.Emit(c)
+		return
+	}
+	e2 := &exporter{ok: true}
+	rp := e2.xcall(f2)
+	if !e2.ok {
+		c.Err = "reparse outside the fragment: " + e2.why
+		hx.Emit(c)
+		return
+	}
+	c.Reparse = rp
+	c.Same = rp == tree
+	out2, err := hxfmt.Print(pr, f2)
+	c.Idem = err == nil && out2 == out
+	stats["cases_xcall"]++
+	hx.Emit(c)
+}
+
 func defaultOptsFor(i int) (string, int, bool, []syntax.PrinterOption) {
 	switch i % 4 {
 	case 1:
@@ -742,6 +906,19 @@ func main() {
 		}
 		src += "\n"
 		runDefault(id, src, gd.canon, stats)
+		id++
+	}
+	// level S+: one simple command with assignments and redirections per file
+	for _, p := range xPinned {
+		for k := 0; k < 4; k++ {
+			runX(id, p+"\n", stats)
+			id++
+		}
+	}
+	gx := &gen{r: hx.Rand(o.Seed, 303)}
+	for i := 0; i < o.N/2; i++ {
+		src := gx.xcmd() + "\n"
+		runX(id, src, stats)
 		id++
 	}
 	hx.Emit(map[string]any{"summary": stats})
